@@ -100,6 +100,8 @@ func usesFunc(p *Program, f *Func) bool {
 				for _, a := range x.Args {
 					we(a)
 				}
+			case *Collect:
+				we(x.E)
 			case *If:
 				we(x.Cond)
 				ws(x.Then)
